@@ -1718,3 +1718,546 @@ Proof.
   intros HI E1 E2. destruct (xfer_ok_spec false s pre c post u_idx u_id u_len st HI) as (_ & _ & P3).
   destruct (P3 E1 E2) as (s' & evs & Hr & HI' & _). exists s', evs. split; [exact Hr|exact HI'].
 Qed.
+
+(* ======================================================================================================= *)
+(* 7. the event queue: VirtIOSound::new (event-queue part) and latest_notification                         *)
+(* Built on the OwningQueue theorems of C19 (Proofs/OwningProofs: owning_new_stocked, poll_stocked).       *)
+From VD Require Import Model.Owning Proofs.OwningProofs.
+
+(* the driver's decoder is the specification's: an event is 8 bytes, le32 code then le32 data; the four event codes of
+   5.14.6 are accepted, every other code is IoError, a buffer that does not hold 8 written bytes yields no event *)
+Theorem snd_event_handler_spec buffer : snd_event_handler buffer = spec_notification buffer EIoError.
+Proof.
+  unfold snd_event_handler, spec_notification, spec_decode_event, SND_EVENT_SIZE.
+  destruct (lenN buffer =? 8); [|reflexivity]. rewrite !rd_fld.
+  unfold snd_ntype_known, spec_event_known, SND_EVT_JACK_CONNECTED, SND_EVT_JACK_DISCONNECTED, SND_EVT_PCM_PERIOD_ELAPSED, SND_EVT_PCM_XRUN.
+  replace ((fld buffer 0 4 =? 4352) || (fld buffer 0 4 =? 4353) || (fld buffer 0 4 =? 4096) || (fld buffer 0 4 =? 4097))
+    with ((fld buffer 0 4 =? 4096) || (fld buffer 0 4 =? 4097) || (fld buffer 0 4 =? 4352) || (fld buffer 0 4 =? 4353)) by lia.
+  reflexivity.
+Qed.
+
+(* the four codes, one by one, and some others *)
+Example snd_event_codes :
+  snd_event_handler [0; 16; 0; 0; 7; 0; 0; 0] = Ok (Some (4096, 7))
+  /\ snd_event_handler [1; 16; 0; 0; 255; 255; 255; 255] = Ok (Some (4097, 4294967295))
+  /\ snd_event_handler [0; 17; 0; 0; 1; 2; 0; 0] = Ok (Some (4352, 513))
+  /\ snd_event_handler [1; 17; 0; 0; 0; 0; 0; 0] = Ok (Some (4353, 0))
+  /\ snd_event_handler [2; 16; 0; 0; 0; 0; 0; 0] = Err EIoError
+  /\ snd_event_handler [0; 128; 0; 0; 0; 0; 0; 0] = Err EIoError
+  /\ snd_event_handler [0; 16; 0; 1; 0; 0; 0; 0] = Err EIoError
+  /\ snd_event_handler [0; 16; 0; 0; 7; 0; 0] = Ok None
+  /\ snd_event_handler [] = Ok None.
+Proof. repeat split; reflexivity. Qed.
+
+(* the size of a queue never changes *)
+Lemma add_single_size s b : q_size (snd (fst (add s [] [b] 0))) = q_size s.
+Proof.
+  unfold add. cbn [tag_bufs map app]. change (lenN [(b, true)]) with 1. cbn [N.eqb Pos.eqb].
+  destruct (negb (capacity_ok s 1)); [reflexivity|].
+  change (1 <? 1) with false. rewrite andb_false_r.
+  unfold add_direct. cbn [add_direct_loop].
+  destruct (b_len b =? 0); [reflexivity|].
+  destruct (nthN_error (q_shadow s) (q_free_head s)) as [d|]; [|reflexivity].
+  destruct (two32 <=? b_len b); [reflexivity|].
+  destruct (nthN_error _ (q_free_head s)); reflexivity.
+Qed.
+
+Lemma owning_new_loop_size bufsz : forall addrs i s, q_size (snd (fst (owning_new_loop addrs i bufsz s))) = q_size s.
+Proof.
+  induction addrs as [|a r IH]; intros i s; cbn [owning_new_loop]; [reflexivity|].
+  pose proof (add_single_size s (obuf i bufsz a)) as Ha.
+  destruct (add s [] [obuf i bufsz a] 0) as [[o1 s1] e1]. cbn [fst snd] in Ha.
+  destruct o1 as [tok|x| |]; try exact Ha.
+  destruct (tok =? i); [|exact Ha].
+  specialize (IH (i + 1) s1).
+  destruct (owning_new_loop r (i + 1) bufsz s1) as [[o2 s2] e2]. cbn [fst snd] in *. congruence.
+Qed.
+
+(* VirtIOSound::new, event-queue part, for every start of the free-running indices, every share answer, every feature
+   word of the device and both suppression modes: no `?` and no assert fires, all 32 buffers are posted (token i =
+   buffer i, 8 bytes each, device-writable), the notification of queue 1 is sent iff should_notify *)
+Theorem snd_evq_new_stocked feats start addrs ae uf :
+  lenN addrs = 32 -> start < two16 ->
+  exists q evs chains,
+    snd_evq_new feats start addrs ae uf
+      = (Ok tt, q, map OQ evs ++ (if should_notify q ae uf then [ONotify] else []))
+    /\ Reach q chains evs /\ Stocked q chains SND_EVENT_SIZE /\ q_size q = 32.
+Proof.
+  intros Hl Hs. unfold snd_evq_new.
+  destruct (owning_new_stocked 5 (has_feat (N.land feats SND_SUPPORTED) SF_INDIRECT) (has_feat (N.land feats SND_SUPPORTED) SF_EVENT_IDX)
+              SND_EVENT_SIZE addrs start ltac:(lia) ltac:(discriminate) ltac:(reflexivity) Hl Hs) as (q & evs & chains & Hrun & HR & HS).
+  change (2 ^ 5) with SND_QUEUE_SIZE in Hrun.
+  pose proof (owning_new_loop_size SND_EVENT_SIZE addrs 0
+                (qset_indices (qnew SND_QUEUE_SIZE (has_feat (N.land feats SND_SUPPORTED) SF_INDIRECT) (has_feat (N.land feats SND_SUPPORTED) SF_EVENT_IDX)) start)) as Hsz.
+  rewrite Hrun in *. cbn [fst snd] in Hsz.
+  exists q, evs, chains. split; [reflexivity|]. split; [exact HR|]. split; [exact HS|exact Hsz].
+Qed.
+(* --- one call --- *)
+Lemma pop_used_ok_len s token ins outs u_idx u_id u_len l :
+  fst (fst (pop_used s token ins outs u_idx u_id u_len)) = Ok l -> l = w32 u_len.
+Proof.
+  unfold pop_used. destruct (negb (can_pop s u_idx)); [discriminate|].
+  destruct (negb (w16 u_id =? token)); [discriminate|].
+  destruct (recycle s (w16 u_id) (tag_bufs ins outs)) as [[o s1] e1].
+  destruct o; try discriminate. destruct (q_event_idx s1); cbn [fst]; intros [= <-]; reflexivity.
+Qed.
+
+Lemma recycle_size s head bufs : q_size (snd (fst (recycle s head bufs))) = q_size s.
+Proof.
+  unfold recycle. destruct (nthN_error (q_shadow s) head) as [hd|]; [|reflexivity].
+  destruct (has_flag (d_flags hd) F_INDIRECT).
+  - destruct (nthN_error (q_ind s) head) as [[tbl|]|]; try reflexivity.
+    destruct (q_num_used s =? 0); [reflexivity|].
+    destruct (negb (lenN tbl =? lenN bufs)); [reflexivity|]. destruct (unshare_ind bufs tbl). reflexivity.
+  - destruct (recycle_loop _ _ _ _ _ _) as [[[[sh dt] nu]|e| |] evs]; reflexivity.
+Qed.
+
+Lemma pop_used_size s token ins outs u_idx u_id u_len :
+  q_size (snd (fst (pop_used s token ins outs u_idx u_id u_len))) = q_size s.
+Proof.
+  unfold pop_used. destruct (negb (can_pop s u_idx)); [reflexivity|].
+  destruct (negb (w16 u_id =? token)); [reflexivity|].
+  pose proof (recycle_size s (w16 u_id) (tag_bufs ins outs)) as Hr.
+  destruct (recycle s (w16 u_id) (tag_bufs ins outs)) as [[o s1] e1]. cbn [fst snd] in Hr.
+  destruct o; try exact Hr. destruct (q_event_idx s1); exact Hr.
+Qed.
+
+Lemma owning_poll_size s bufsz u_idx u_id u_len addr ae uf hres :
+  q_size (snd (fst (owning_poll s bufsz u_idx u_id u_len addr ae uf hres))) = q_size s.
+Proof.
+  unfold owning_poll, owning_pop.
+  destruct (peek_used s u_idx u_id) as [token|]; [|reflexivity].
+  destruct (q_size s <=? token); [reflexivity|].
+  pose proof (pop_used_size s token [] [obuf token bufsz 0] u_idx u_id u_len) as Hp.
+  destruct (pop_used s token [] [obuf token bufsz 0] u_idx u_id u_len) as [[o s1] e1]. cbn [fst snd] in Hp.
+  destruct o as [len|e| |]; try exact Hp.
+  unfold owning_readd. destruct (q_size s1 <=? token); [exact Hp|].
+  pose proof (add_single_size s1 (obuf token bufsz addr)) as Ha.
+  destruct (add s1 [] [obuf token bufsz addr] 0) as [[oa sa] ea]. cbn [fst snd] in Ha.
+  destruct oa as [tok|e| |]; [destruct (tok =? token)|..]; cbn [fst snd]; congruence.
+Qed.
+
+(* what the closure answers, as the class OwningQueue::poll is parametrised with in Model/Owning.v *)
+Definition snd_hclass (wr : list N) (u_len : N) : N :=
+  match snd_event_handler (firstn (N.to_nat (w32 u_len)) wr) with Ok (Some _) => 0 | Ok None => 1 | _ => 2 end.
+
+(* latest_notification IS OwningQueue::poll with the closure's answer: same successor state, same effects, and the
+   result is the closure's on the first `len` bytes of the buffer *)
+Lemma snd_notif_as_poll q v :
+  let r := owning_poll q SND_EVENT_SIZE (nv_idx v) (nv_id v) (nv_len v) (nv_addr v) (nv_ae v) (nv_uf v)
+             (snd_hclass (nv_wr v) (nv_len v)) in
+  snd_latest_notification q v =
+  (match fst (fst r) with
+   | Ok (Some (l, _)) => snd_event_handler (firstn (N.to_nat l) (nv_wr v))
+   | Ok None => Ok None
+   | Err e => Err e
+   | Panic => Panic
+   | UB => UB
+   end, snd (fst r), snd r).
+Proof.
+  cbv zeta. unfold snd_latest_notification, owning_poll.
+  pose proof (fun tok => pop_used_ok_len q tok [] [obuf tok SND_EVENT_SIZE 0] (nv_idx v) (nv_id v) (nv_len v)) as HL.
+  unfold owning_pop in *.
+  destruct (peek_used q (nv_idx v) (nv_id v)) as [token|]; [|reflexivity].
+  destruct (q_size q <=? token); [reflexivity|].
+  specialize (HL token).
+  destruct (pop_used q token [] [obuf token SND_EVENT_SIZE 0] (nv_idx v) (nv_id v) (nv_len v)) as [[o q1] e1].
+  cbn [fst] in HL. destruct o as [len|e| |]; try reflexivity.
+  specialize (HL len eq_refl). subst len.
+  destruct (owning_readd q1 SND_EVENT_SIZE token (nv_addr v) (nv_ae v) (nv_uf v)) as [[o2 q2] e2].
+  destruct o2; try reflexivity. cbn [fst snd].
+  destruct (SND_EVENT_SIZE <? w32 (nv_len v)); [reflexivity|].
+  unfold handler_result, snd_hclass.
+  destruct (snd_event_handler (firstn (N.to_nat (w32 (nv_len v))) (nv_wr v))) as [[[c d]|]|e| |] eqn:E; cbn [N.eqb fst snd]; try rewrite E; try reflexivity.
+  - (* the closure's only error is IoError *)
+    unfold snd_event_handler in E. destruct (lenN _ =? SND_EVENT_SIZE); [|discriminate].
+    destruct (snd_ntype_known _); [discriminate|]. now injection E as <-.
+  - unfold snd_event_handler in E. destruct (lenN _ =? SND_EVENT_SIZE); [|discriminate]. destruct (snd_ntype_known _); discriminate.
+  - unfold snd_event_handler in E. destruct (lenN _ =? SND_EVENT_SIZE); [|discriminate]. destruct (snd_ntype_known _); discriminate.
+Qed.
+
+(* what the caller is owed for a completed event buffer: the recorded length cut to... *)
+Definition snd_notif_result (u_len : N) (wr : list N) : outcome (option (N * N)) :=
+  if SND_EVENT_SIZE <? w32 u_len then Err EIoError
+  else spec_notification (firstn (N.to_nat (w32 u_len)) wr) EIoError.
+
+(* latest_notification for EVERY device behaviour (used index, used element, recorded length, buffer contents, share
+   answer, suppression words), in every state the driver can be in:
+   nothing pending -> None, nothing changes; an id outside the queue -> WrongToken, nothing changes; otherwise the
+   completion at the head of the used ring is consumed: the caller gets the specification's reading of the bytes the
+   device recorded as written (an event with its type and data; IoError for an unknown type code or a length above
+   8; None when fewer than 8 bytes were written), and IN EVERY ONE OF THESE CASES the buffer is posted again under
+   the same token and the queue is fully stocked *)
+Theorem snd_notif_stocked q chains h v o q' evs :
+  Reach q chains h -> Stocked q chains SND_EVENT_SIZE ->
+  snd_latest_notification q v = (o, q', evs) ->
+  (q_last_used q = w16 (nv_idx v) -> o = Ok None /\ q' = q /\ evs = [])
+  /\ (q_last_used q <> w16 (nv_idx v) -> q_size q <= w16 (nv_id v) -> o = Err EWrongToken /\ q' = q /\ evs = [])
+  /\ (q_last_used q <> w16 (nv_idx v) -> w16 (nv_id v) < q_size q ->
+        o = snd_notif_result (nv_len v) (nv_wr v)
+        /\ q_last_used q' = w16 (q_last_used q + 1)
+        /\ q_size q' = q_size q
+        /\ exists chains' h', Reach q' chains' h' /\ Stocked q' chains' SND_EVENT_SIZE).
+Proof.
+  intros HR HS Hrun. rewrite snd_notif_as_poll in Hrun. cbv zeta in Hrun.
+  destruct (owning_poll q SND_EVENT_SIZE (nv_idx v) (nv_id v) (nv_len v) (nv_addr v) (nv_ae v) (nv_uf v) (snd_hclass (nv_wr v) (nv_len v)))
+    as [[op qp] ep] eqn:Ep. cbn [fst snd] in Hrun. injection Hrun as Ho <- <-.
+  destruct (poll_stocked q chains h SND_EVENT_SIZE _ _ _ _ _ _ _ op qp ep HR HS ltac:(discriminate) ltac:(reflexivity) Ep) as (P1 & P2 & P3).
+  split; [|split].
+  - intros E. destruct (P1 E) as (-> & -> & ->). subst o. auto.
+  - intros E1 E2. destruct (P2 E1 E2) as (-> & -> & ->). subst o. auto.
+  - intros E1 E2. destruct (P3 E1 E2) as (Hop & Hlu & chains' & h' & HR' & HS').
+    split; [|split; [exact Hlu|split; [|eauto]]].
+    + subst o. rewrite Hop. unfold snd_notif_result.
+      destruct (SND_EVENT_SIZE <? w32 (nv_len v)); [reflexivity|].
+      unfold handler_result, snd_hclass. rewrite <- snd_event_handler_spec.
+      destruct (snd_event_handler (firstn (N.to_nat (w32 (nv_len v))) (nv_wr v))) as [[[c d]|]|e| |] eqn:E; cbn [N.eqb]; try rewrite E; try reflexivity.
+      * unfold snd_event_handler in E. destruct (lenN _ =? SND_EVENT_SIZE); [|discriminate].
+        destruct (snd_ntype_known _); [discriminate|]. now injection E as <-.
+      * unfold snd_event_handler in E. destruct (lenN _ =? SND_EVENT_SIZE); [|discriminate]. destruct (snd_ntype_known _); discriminate.
+      * unfold snd_event_handler in E. destruct (lenN _ =? SND_EVENT_SIZE); [|discriminate]. destruct (snd_ntype_known _); discriminate.
+    + pose proof (owning_poll_size q SND_EVENT_SIZE (nv_idx v) (nv_id v) (nv_len v) (nv_addr v) (nv_ae v) (nv_uf v) (snd_hclass (nv_wr v) (nv_len v))) as Hsz.
+      rewrite Ep in Hsz. exact Hsz.
+Qed.
+
+(* --- histories: any number of events, any completion order, any burst size, polls more or less often than events --- *)
+(* The device side is an abstract FIFO: `comps` lists its completions in used-ring order, each (token it picked,
+   (length it recorded, contents of the buffer after it)); `pub` of them are published (used index = base + pub) when
+   a poll runs; the driver has consumed k. Tokens are arbitrary below 32 - any order, any repetition: every buffer is
+   posted again before the next poll, so the device may pick any of the 32 at any time. *)
+Definition snd_comp : Type := (N * (N * list N))%type.
+Definition snd_comp0 : snd_comp := (0, (0, [])).
+
+Definition snd_honest_view (base : N) (comps : list snd_comp) (k pub : nat) (v : nview) : Prop :=
+  (k <= pub <= length comps)%nat /\ (pub - k <= 32)%nat
+  /\ nv_idx v = base + N.of_nat pub
+  /\ ((k < pub)%nat -> w16 (nv_id v) = fst (nth k comps snd_comp0)
+                       /\ nv_len v = fst (snd (nth k comps snd_comp0)) /\ nv_wr v = snd (snd (nth k comps snd_comp0))).
+
+Fixpoint snd_honest (base : N) (comps : list snd_comp) (k : nat) (vs : list (nat * nview)) : Prop :=
+  match vs with
+  | [] => True
+  | (pub, v) :: r => snd_honest_view base comps k pub v /\ snd_honest base comps (if (k <? pub)%nat then S k else k) r
+  end.
+
+Fixpoint snd_consumed (k : nat) (vs : list (nat * nview)) : nat :=
+  match vs with
+  | [] => k
+  | (pub, _) :: r => snd_consumed (if (k <? pub)%nat then S k else k) r
+  end.
+
+(* what the caller is owed for one completion *)
+Definition snd_comp_result (c : snd_comp) : outcome (option (N * N)) := snd_notif_result (fst (snd c)) (snd (snd c)).
+
+(* what each poll must return *)
+Fixpoint snd_expected (comps : list snd_comp) (k : nat) (vs : list (nat * nview)) : list (outcome (option (N * N))) :=
+  match vs with
+  | [] => []
+  | (pub, _) :: r =>
+      if (k <? pub)%nat then snd_comp_result (nth k comps snd_comp0) :: snd_expected comps (S k) r
+      else Ok None :: snd_expected comps k r
+  end.
+
+Lemma snd_w16_neq_near base k pub :
+  (k < pub)%nat -> (pub - k <= 32)%nat -> w16 (base + N.of_nat k) <> w16 (base + N.of_nat pub).
+Proof. intros H1 H2. unfold w16. lia. Qed.
+Lemma snd_w16_succ base k : w16 (w16 (base + N.of_nat k) + 1) = w16 (base + N.of_nat (S k)).
+Proof. unfold w16. lia. Qed.
+
+Theorem snd_notif_history base comps :
+  Forall (fun c => fst c < 32) comps ->
+  forall vs q chains h k,
+  Reach q chains h -> Stocked q chains SND_EVENT_SIZE -> q_size q = 32 ->
+  q_last_used q = w16 (base + N.of_nat k) ->
+  snd_honest base comps k vs ->
+  exists q' chains' h',
+    snd_notif_run q (map snd vs) = (snd_expected comps k vs, q')
+    /\ Reach q' chains' h' /\ Stocked q' chains' SND_EVENT_SIZE /\ q_size q' = 32
+    /\ q_last_used q' = w16 (base + N.of_nat (snd_consumed k vs)).
+Proof.
+  intros Htok. induction vs as [|[pub v] r IH]; intros q chains h k HR Hst Hsz Hlu Hh.
+  - exists q, chains, h. cbn. auto.
+  - cbn [snd_honest] in Hh. destruct Hh as [(Hrange & Hnear & Hi & Hpend) Hrest].
+    cbn [map snd snd_notif_run snd_expected snd_consumed].
+    destruct (snd_latest_notification q v) as [[o q1] e1] eqn:Epop.
+    destruct (snd_notif_stocked q chains h v o q1 e1 HR Hst Epop) as (P1 & _ & P3).
+    destruct (Nat.ltb_spec k pub) as [Hlt|Hge].
+    + destruct (Hpend Hlt) as (Hid & Hlen & Hwr).
+      assert (Hne : q_last_used q <> w16 (nv_idx v)) by (rewrite Hlu, Hi; now apply snd_w16_neq_near).
+      assert (Ht : w16 (nv_id v) < q_size q).
+      { rewrite Hid, Hsz. rewrite Forall_forall in Htok. apply Htok. apply nth_In. lia. }
+      destruct (P3 Hne Ht) as (Ho & Hlu1 & Hsz1 & chains1 & h1 & HR1 & Hst1).
+      assert (Hlu1' : q_last_used q1 = w16 (base + N.of_nat (S k))) by (rewrite Hlu1, Hlu; apply snd_w16_succ).
+      destruct (IH q1 chains1 h1 (S k) HR1 Hst1 ltac:(congruence) Hlu1' Hrest) as (q' & chains' & h' & Hrun & HR' & Hst' & Hsz' & Hlu').
+      exists q', chains', h'. rewrite Hrun, Ho. unfold snd_comp_result. rewrite Hlen, Hwr. auto.
+    + assert (Ek : k = pub) by lia. subst pub.
+      assert (He : q_last_used q = w16 (nv_idx v)) by (now rewrite Hlu, Hi).
+      destruct (P1 He) as (-> & -> & _).
+      destruct (IH q chains h k HR Hst Hsz Hlu Hrest) as (q' & chains' & h' & Hrun & HR' & Hst' & Hsz' & Hlu').
+      exists q', chains', h'. rewrite Hrun. auto.
+Qed.
+
+(* exactly once, in order: the polls that found a completion pending return, in this order, what is owed for the
+   completions number k, k+1, ... of the device - none twice, none skipped -; every other poll returns None *)
+Fixpoint snd_consuming (comps : list snd_comp) (k : nat) (vs : list (nat * nview)) (os : list (outcome (option (N * N))))
+  : list (outcome (option (N * N))) * list (outcome (option (N * N))) :=
+  match vs, os with
+  | (pub, _) :: r, o :: os' =>
+      let '(a, b) := snd_consuming comps (if (k <? pub)%nat then S k else k) r os' in
+      if (k <? pub)%nat then (o :: a, b) else (a, o :: b)
+  | _, _ => ([], [])
+  end.
+
+Lemma snd_consumed_ge k vs : (k <= snd_consumed k vs)%nat.
+Proof.
+  revert k. induction vs as [|[pub v] r IH]; intros k; cbn [snd_consumed]; [lia|].
+  destruct (k <? pub)%nat; [specialize (IH (S k)); lia|apply IH].
+Qed.
+
+Lemma snd_skipn_nth_cons {A} (l : list A) k d : (k < length l)%nat -> skipn k l = nth k l d :: skipn (S k) l.
+Proof.
+  revert k. induction l as [|a l IH]; intros [|k] H; cbn [length] in H; try lia; [reflexivity|].
+  cbn [skipn nth]. rewrite (IH k) by lia. reflexivity.
+Qed.
+
+Theorem snd_notif_exactly_once_in_order base comps vs q chains h k :
+  Forall (fun c => fst c < 32) comps ->
+  Reach q chains h -> Stocked q chains SND_EVENT_SIZE -> q_size q = 32 ->
+  q_last_used q = w16 (base + N.of_nat k) ->
+  snd_honest base comps k vs ->
+  let '(consuming, idle) := snd_consuming comps k vs (fst (snd_notif_run q (map snd vs))) in
+  consuming = map snd_comp_result (firstn (snd_consumed k vs - k) (skipn k comps))
+  /\ Forall (fun o => o = Ok None) idle.
+Proof.
+  intros Htok HR Hst Hsz Hlu Hh.
+  destruct (snd_notif_history base comps Htok vs q chains h k HR Hst Hsz Hlu Hh) as (q' & _ & _ & Hrun & _).
+  rewrite Hrun. cbn [fst]. clear - Hh. revert k Hh.
+  induction vs as [|[pub v] r IH]; intros k Hh.
+  - cbn. rewrite Nat.sub_diag. split; [reflexivity|constructor].
+  - cbn [snd_honest] in Hh. destruct Hh as [(Hrange & _) Hrest].
+    cbn [snd_expected snd_consuming snd_consumed].
+    destruct (Nat.ltb_spec k pub) as [Hlt|Hge].
+    + cbn [snd_consuming]. replace (k <? pub)%nat with true by (symmetry; apply Nat.ltb_lt; exact Hlt).
+      specialize (IH (S k) Hrest).
+      destruct (snd_consuming comps (S k) r (snd_expected comps (S k) r)) as [a b]. destruct IH as [IA IB].
+      split; [|exact IB]. rewrite IA.
+      pose proof (snd_consumed_ge (S k) r) as Hge.
+      rewrite (snd_skipn_nth_cons comps k snd_comp0) by (apply Nat.lt_le_trans with pub; [exact Hlt|exact (proj2 Hrange)]).
+      replace (snd_consumed (S k) r - k)%nat with (S (snd_consumed (S k) r - S k)) by lia. reflexivity.
+    + cbn [snd_consuming]. replace (k <? pub)%nat with false by (symmetry; apply Nat.ltb_ge; exact Hge).
+      specialize (IH k Hrest).
+      destruct (snd_consuming comps k r (snd_expected comps k r)) as [a b]. destruct IH as [IA IB].
+      split; [exact IA|]. constructor; [reflexivity|exact IB].
+Qed.
+
+(* non-vacuity: new, then a device that starts at index 65535, completes token 7 (jack 3 connected), token 3 (a code that
+   is no event), token 7 again (period elapsed on stream 1, the buffer has been posted again in between), token 0 with only
+   4 bytes recorded, token 5 with 9 bytes recorded; the first two published in one burst; seven polls *)
+Definition snd_demo_comps : list snd_comp :=
+  [(7, (8, [0; 16; 0; 0; 3; 0; 0; 0])); (3, (8, [2; 16; 0; 0; 0; 0; 0; 0])); (7, (8, [0; 17; 0; 0; 1; 0; 0; 0]));
+   (0, (4, [0; 16; 0; 0; 9; 9; 9; 9])); (5, (9, [0; 16; 0; 0; 1; 0; 0; 0]))].
+Definition snd_demo_view (pub : N) (k : nat) : nview :=
+  let c := nth k snd_demo_comps snd_comp0 in
+  mkNV (65535 + pub) (fst c) (fst (snd c)) (snd (snd c)) (500 + pub) 0 0.
+Definition snd_demo_polls : list (nat * nview) :=
+  [(2%nat, snd_demo_view 2 0); (2%nat, snd_demo_view 2 1); (2%nat, snd_demo_view 2 2); (3%nat, snd_demo_view 3 2);
+   (5%nat, snd_demo_view 5 3); (5%nat, snd_demo_view 5 4); (5%nat, snd_demo_view 5 5)].
+
+Example snd_notif_history_nonvacuous :
+  let q := snd (fst (snd_evq_new (SF_INDIRECT + SF_EVENT_IDX + SF_VERSION_1) 65535 (seqN 100 32) 0 0)) in
+  fst (fst (snd_evq_new (SF_INDIRECT + SF_EVENT_IDX + SF_VERSION_1) 65535 (seqN 100 32) 0 0)) = Ok tt
+  /\ snd_honest 65535 snd_demo_comps 0 snd_demo_polls
+  /\ Forall (fun c => fst c < 32) snd_demo_comps
+  /\ snd_consumed 0 snd_demo_polls = 5%nat
+  /\ fst (snd_notif_run q (map snd snd_demo_polls))
+     = [Ok (Some (4096, 3)); Err EIoError; Ok None; Ok (Some (4352, 1)); Ok None; Err EIoError; Ok None]
+  /\ q_num_used (snd (snd_notif_run q (map snd snd_demo_polls))) = 32.
+Proof.
+  cbv zeta. split; [vm_compute; reflexivity|]. split.
+  { unfold snd_demo_polls, snd_demo_view, snd_honest, snd_honest_view.
+    cbn [Nat.ltb Nat.leb length snd_demo_comps nth fst snd nv_idx nv_id nv_len nv_wr].
+    repeat split; try lia; try reflexivity; intros; try lia; try (vm_compute; reflexivity). }
+  split; [repeat constructor|]. split; [reflexivity|]. split; vm_compute; reflexivity.
+Qed.
+
+(* ======================================================================================================= *)
+(* 8. configuration counters and the stream queries, end to end                                            *)
+Lemma sle_bound l : Forall (fun b => b < 256) l -> sle l < 256 ^ N.of_nat (length l).
+Proof.
+  induction l as [|b l IH]; intros H; cbn [sle length]; [reflexivity|]. inversion H; subst.
+  specialize (IH ltac:(assumption)). rewrite Nat2N.inj_succ, N.pow_succ_r'. lia.
+Qed.
+
+Lemma Forall_firstn_skipn {A} (P : A -> Prop) (l : list A) off n : Forall P l -> Forall P (firstn n (skipn off l)).
+Proof.
+  intros H.
+  assert (Hs : Forall P (skipn off l)).
+  { rewrite <- (firstn_skipn off l) in H. apply Forall_app in H. tauto. }
+  rewrite <- (firstn_skipn n (skipn off l)) in Hs. apply Forall_app in Hs. tauto.
+Qed.
+
+Lemma fld_bound cfg off n : Forall (fun b => b < 256) cfg -> fld cfg off n < 256 ^ N.of_nat n.
+Proof.
+  intros H. unfold fld.
+  eapply N.lt_le_trans; [apply sle_bound; apply Forall_firstn_skipn; exact H|].
+  apply N.pow_le_mono_r; [discriminate|]. rewrite firstn_length. lia.
+Qed.
+
+(* VirtIOSound::new reads the three counters with three 4-byte reads at the offsets of struct virtio_snd_config
+   (5.14.4), in this order, each followed by `?`: a refused read ends the constructor with the transport's error
+   and the later fields are not read *)
+Theorem snd_read_config_spec :
+  (forall j st c, snd_read_config (Ok j) (Ok st) (Ok c)
+     = (Ok (w32 j, w32 st, w32 c), [SCRead SND_CFG_JACKS_OFF 4; SCRead SND_CFG_STREAMS_OFF 4; SCRead SND_CFG_CHMAPS_OFF 4]))
+  /\ (forall e a1 a2, snd_read_config (Err e) a1 a2 = (Err e, [SCRead SND_CFG_JACKS_OFF 4]))
+  /\ (forall j e a2, snd_read_config (Ok j) (Err e) a2 = (Err e, [SCRead SND_CFG_JACKS_OFF 4; SCRead SND_CFG_STREAMS_OFF 4]))
+  /\ (forall j st e, snd_read_config (Ok j) (Ok st) (Err e)
+        = (Err e, [SCRead SND_CFG_JACKS_OFF 4; SCRead SND_CFG_STREAMS_OFF 4; SCRead SND_CFG_CHMAPS_OFF 4])).
+Proof. repeat split. Qed.
+
+(* jacks() / streams() / chmaps() are the three fields of the configuration space the device exposed at construction:
+   for every content cfg of the 12 configuration bytes and every feature word *)
+Theorem snd_config_counters feats cfg :
+  Forall (fun b => b < 256) cfg ->
+  let '(j, st, c) := spec_snd_config cfg in
+  fst (snd_read_config (Ok j) (Ok st) (Ok c)) = Ok (j, st, c)
+  /\ snd_counters (snd_new feats j st c) = (j, st, c).
+Proof.
+  intros H. unfold spec_snd_config, snd_read_config, snd_counters, snd_new. cbn [fst s_jacks s_streams s_chmaps].
+  pose proof (fld_bound cfg 0 4 H) as B0. pose proof (fld_bound cfg 4 4 H) as B1. pose proof (fld_bound cfg 8 4 H) as B2.
+  change (256 ^ N.of_nat 4) with two32 in *.
+  unfold w32. rewrite !N.mod_small by (unfold two32 in *; assumption). split; reflexivity.
+Qed.
+
+Example snd_config_counters_nonvacuous :
+  spec_snd_config [2; 0; 0; 0; 0x78; 0x56; 0x34; 0x12; 255; 255; 255; 255] = (2, 0x12345678, 4294967295)
+  /\ snd_counters (snd_new SF_VERSION_1 2 0x12345678 4294967295) = (2, 0x12345678, 4294967295).
+Proof. split; reflexivity. Qed.
+
+(* ---------- the answer to PCM_INFO, for EVERY content ---------- *)
+Lemma parse_pcm_spec b : parse_pcm b = spec_dec_pcm_info b.
+Proof. unfold parse_pcm, spec_dec_pcm_info. now rewrite !rd_fld. Qed.
+
+Lemma slice_pcm_item rsp i : slice rsp (4 + i * PCM_INFO_SZ) PCM_INFO_SZ = spec_pcm_item rsp i.
+Proof. unfold slice, spec_pcm_item, PCM_INFO_SZ. do 2 f_equal. lia. Qed.
+
+(* whatever bytes the device put behind an OK status: the driver reads back, item by item, the fields at the positions of
+   struct virtio_snd_pcm_info - for every item count that fits the receive buffer *)
+Lemma parse_infos_any rsp : forall n i,
+  4 + (i + N.of_nat n) * PCM_INFO_SZ <= RECV_SIZE ->
+  parse_infos parse_pcm PCM_INFO_SZ rsp i n = Ok (spec_pcm_items rsp i n).
+Proof.
+  induction n as [|n IH]; intros i H; [reflexivity|]. cbn [parse_infos spec_pcm_items].
+  destruct (N.ltb_spec RECV_SIZE (4 + (i + 1) * PCM_INFO_SZ)) as [L|L]; [unfold PCM_INFO_SZ, RECV_SIZE in *; lia|].
+  rewrite IH by (unfold PCM_INFO_SZ, RECV_SIZE in *; lia). now rewrite slice_pcm_item, parse_pcm_spec.
+Qed.
+
+Theorem parse_all_any_content rsp count :
+  4 + count * PCM_INFO_SZ <= RECV_SIZE ->
+  parse_all parse_pcm PCM_INFO_SZ rsp count = Ok (spec_pcm_items rsp 0 (N.to_nat count)).
+Proof.
+  intros H. unfold parse_all.
+  replace (N.min count INFO_FUEL) with count by (unfold INFO_FUEL, PCM_INFO_SZ, RECV_SIZE in *; lia).
+  apply parse_infos_any. rewrite N2Nat.id. lia.
+Qed.
+
+Lemma spec_pcm_items_length rsp : forall n i, length (spec_pcm_items rsp i n) = n.
+Proof. induction n as [|n IH]; intros i; cbn [spec_pcm_items length]; [reflexivity|]. now rewrite IH. Qed.
+
+Lemma spec_pcm_items_nth rsp : forall n i j, (j < n)%nat ->
+  nth_error (spec_pcm_items rsp i n) j = Some (spec_dec_pcm_info (spec_pcm_item rsp (i + N.of_nat j))).
+Proof.
+  induction n as [|n IH]; intros i j H; [lia|]. cbn [spec_pcm_items].
+  destruct j as [|j]; cbn [nth_error]; [now rewrite N.add_0_r|].
+  rewrite IH by lia. do 3 f_equal. lia.
+Qed.
+
+(* C20_snd_values, queries, against the ANSWER: once set_up has stored the answer rsp of the device to PCM_INFO for n
+   streams, every query returns what the specification's field table says of rsp - the ids of the streams whose direction
+   byte is OUTPUT / INPUT in ascending order, the rates / formats bitmaps, channels_min and channels_max, the features word
+   of item stream_id - and a stream id the device did not report gives InvalidParam; no traffic, nothing changes *)
+Theorem snd_get_of_answer s rsp n es which sid :
+  s_set_up s = true -> s_pcm_infos s = Some (spec_pcm_items rsp 0 n) -> N.of_nat n < two32 ->
+  snd_get s which sid es = Some (spec_stream_query rsp n which sid EInvalidParam, s, [], []).
+Proof.
+  intros Hsu Hp Hn.
+  assert (Hl : lenN (spec_pcm_items rsp 0 n) = N.of_nat n) by (unfold lenN; now rewrite spec_pcm_items_length).
+  destruct (get_spec s _ es Hsu Hp ltac:(now rewrite Hl)) as (G0 & G1 & G2 & G3).
+  unfold spec_stream_query.
+  destruct (N.eqb_spec which 0) as [->|W0]; [exact G0|].
+  destruct (N.eqb_spec which 1) as [->|W1]; [exact G1|].
+  destruct (N.leb_spec (N.of_nat n) sid) as [L|L].
+  - (* the model's case split on `which` is total: anything but 0 / 1 is a per-stream query *)
+    unfold snd_get. rewrite with_set_up_done by exact Hsu. rewrite Hp, Hl.
+    replace (which =? 0) with false by lia. replace (which =? 1) with false by lia.
+    replace (w32 (N.of_nat n)) with (N.of_nat n) by (unfold w32; rewrite N.mod_small; [reflexivity|exact Hn]).
+    replace (N.of_nat n <=? sid) with true by lia. reflexivity.
+  - assert (Hnth : nth_safe (spec_pcm_items rsp 0 n) sid = Some (spec_dec_pcm_info (spec_pcm_item rsp sid))).
+    { rewrite nth_safe_eq. unfold nthN_error. rewrite spec_pcm_items_nth by lia. do 3 f_equal. lia. }
+    unfold snd_get. rewrite with_set_up_done by exact Hsu. rewrite Hp, Hl.
+    replace (which =? 0) with false by lia. replace (which =? 1) with false by lia.
+    replace (w32 (N.of_nat n)) with (N.of_nat n) by (unfold w32; rewrite N.mod_small; [reflexivity|exact Hn]).
+    replace (N.of_nat n <=? sid) with false by lia. rewrite Hnth. reflexivity.
+Qed.
+
+(* ... and the FIRST query, which runs set_up: for every answer of the device to the three queries (the only exclusion, as in
+   C20_snd_set_up: an OK status claimed for more items than the receive buffer holds). If the device answers PCM_INFO with
+   OK, the query returns what the specification says of THAT answer, for every content of it; if it answers anything else,
+   the query fails with IoError. *)
+Theorem snd_first_query s e1 e2 e3 which sid :
+  ctl_idle s -> s_set_up s = false ->
+  s_jacks s < two32 -> s_streams s < two32 -> s_chmaps s < two32 ->
+  env_done s e1 -> env_done_at s 1 e2 -> env_done_at s 2 e3 ->
+  is_fatal (qans parse_jack JACK_INFO_SZ (s_jacks s) (ce_rsp e1)) = false ->
+  is_fatal (qans parse_chmap CHMAP_INFO_SZ (s_chmaps s) (ce_rsp e3)) = false ->
+  4 + s_streams s * PCM_INFO_SZ <= RECV_SIZE ->
+  (fld (ce_rsp e2) 0 4 = SND_S_OK ->
+     exists s' evs vs,
+       snd_get s which sid [e1; e2; e3]
+         = Some (spec_stream_query (ce_rsp e2) (N.to_nat (s_streams s)) which sid EInvalidParam, s', evs, vs)
+       /\ s_set_up s' = true /\ s_pcm_infos s' = Some (spec_pcm_items (ce_rsp e2) 0 (N.to_nat (s_streams s))))
+  /\ (fld (ce_rsp e2) 0 4 <> SND_S_OK ->
+     exists s' evs vs, snd_get s which sid [e1; e2; e3] = Some (Err EIoError, s', evs, vs) /\ s_set_up s' = false).
+Proof.
+  intros Hi Hsu Hj Hs Hc D1 D2 D3 Fj Fc Hfit.
+  assert (Hap : forall rsp, qans parse_pcm PCM_INFO_SZ (s_streams s) rsp
+                     = if hdr_ok rsp then Ok (spec_pcm_items rsp 0 (N.to_nat (s_streams s))) else Err EIoError).
+  { intros rsp. unfold qans. destruct (hdr_ok rsp); [|reflexivity]. now apply parse_all_any_content. }
+  assert (Fp : is_fatal (qans parse_pcm PCM_INFO_SZ (s_streams s) (ce_rsp e2)) = false).
+  { rewrite Hap. destruct (hdr_ok (ce_rsp e2)); reflexivity. }
+  destruct (set_up_spec s e1 e2 e3 Hi Hj Hs Hc D1 D2 D3 Fj Fp Fc) as (s1 & evs & Hsame & Hidle & Hji & Hcase).
+  destruct Hsame as (S1 & S2 & S3 & S4 & S5 & S6 & S7 & S8).
+  rewrite Hap in Hcase.
+  split.
+  - intros Hok. apply hdr_ok_iff in Hok. rewrite Hok in Hcase. destruct Hcase as (Hrun & Hpi & Hci).
+    set (s1' := set_infos s1 true (s_jack_infos s1) (s_pcm_infos s1) (s_chmap_infos s1)).
+    assert (Hg : snd_get s1' which sid (skipn 3 [e1; e2; e3])
+                 = Some (spec_stream_query (ce_rsp e2) (N.to_nat (s_streams s)) which sid EInvalidParam, s1', [], [])).
+    { apply snd_get_of_answer; [reflexivity|exact Hpi|]. rewrite N2Nat.id. exact Hs. }
+    unfold snd_get at 1. unfold with_set_up. rewrite Hsu. cbn [nth]. rewrite Hrun.
+    fold s1'. unfold snd_get in Hg. rewrite with_set_up_done in Hg by reflexivity. rewrite Hg.
+    eexists _, _, _. split; [reflexivity|]. split; [reflexivity|exact Hpi].
+  - intros Hno. assert (Hh : hdr_ok (ce_rsp e2) = false).
+    { destruct (hdr_ok (ce_rsp e2)) eqn:E; [|reflexivity]. apply hdr_ok_iff in E. contradiction. }
+    rewrite Hh in Hcase. destruct Hcase as (Hrun & _ & _).
+    unfold snd_get, with_set_up. rewrite Hsu. cbn [nth]. rewrite Hrun. cbn [fail_as].
+    eexists _, _, _. split; [reflexivity|]. congruence.
+Qed.
+
+(* non-vacuity and a look at arbitrary content: the PCM_INFO answer below is NOT what a conforming device would send (the
+   second item has direction 7 and channels_min 200 > channels_max 3) - the queries still return exactly its fields *)
+Definition ex_rsp : list N :=
+  spec_info_rsp SND_S_OK [spec_enc_pcm_info (mkPcm 1 2 96 192 0 1 2) []; spec_enc_pcm_info (mkPcm 9 0xffffffff 0xffffffffffffffff 5 7 200 3) [1; 2; 3; 4; 5];
+                          spec_enc_pcm_info (mkPcm 0 0 0 0 1 0 0) []].
+Example snd_queries_nonvacuous :
+  let s := set_infos ex_s true (Some []) (Some (spec_pcm_items ex_rsp 0 3)) (Some []) in
+  snd_get s 0 0 [] = Some (Ok [0], s, [], [])
+  /\ snd_get s 1 0 [] = Some (Ok [2], s, [], [])
+  /\ snd_get s 2 1 [] = Some (Ok [5], s, [], [])
+  /\ snd_get s 3 1 [] = Some (Ok [0xffffffffffffffff], s, [], [])
+  /\ snd_get s 4 1 [] = Some (Ok [200; 3], s, [], [])
+  /\ snd_get s 5 1 [] = Some (Ok [0xffffffff], s, [], [])
+  /\ snd_get s 2 3 [] = Some (Err EInvalidParam, s, [], [])
+  /\ snd_get s 5 4294967295 [] = Some (Err EInvalidParam, s, [], [])
+  /\ spec_stream_query ex_rsp 3 4 1 EInvalidParam = Ok [200; 3].
+Proof. cbv zeta. repeat split; vm_compute; reflexivity. Qed.
